@@ -128,7 +128,10 @@ pub(crate) fn compile_regex(
         // The fancy_regex crate internally seems to have flags that can be used
         // to enable multiline support, but they're not exposed via its
         // RegexBuilder. We instead just prefix with the right flags.
-        let updated_str = std::format!("(?ms){regex_str}");
+        // N.B. Only `s` (dot matches newline) is wanted: with `m`, `^` and `$`
+        // would also match next to embedded newlines, so a pattern would match
+        // as soon as one *line* of the subject matches.
+        let updated_str = std::format!("(?s){regex_str}");
         regex_str = updated_str.into();
     }
 
